@@ -1,5 +1,5 @@
 """C19 — the exposed hash primitives: FNV half decided from the table, forms as folds; rolling step shape."""
-from ..rules import data, fold, rolling, vis, summary
+from ..rules import data, fold, rolling, vis, summary, beliefs
 
 EXPL = ("Decides: (1) SA-DATA exhaustively over all 64x64 entries of FNV_TABLE as evaluated by rustc: entry = low 6 bits of "
         "((state*0x01000193) xor c); initial value = 0x28021967 mod 64; update_by_byte's only store to the state is "
@@ -23,5 +23,7 @@ def run(ctx):
         ctx.guard("C19", "roll-step", lambda: rolling.step_shape(ctx, prog))
         ctx.guard("C19", "summaries", lambda: summary.check(ctx, prog, 'generate::hashes::', floor=6))
         ctx.guard("C19", "path summaries", lambda: summary.check_paths(ctx, prog, 'generate::hashes::', floor=0))
+        if c in ("dbg", "unsafe_dbg", "strict_dbg"):
+            ctx.guard("C19", "beliefs", lambda: beliefs.census(ctx, prog, beliefs.SCOPES["C19"][0], floor=beliefs.SCOPES["C19"][1]))
         ctx.guard("C19", "traits", lambda: vis.trait_census(ctx, prog, scope='hashes::'))
     return ctx.finish(EXPL, ["u32 wrapping_* methods have their documented meaning", "rustc's const evaluation of FNV_TABLE"])
